@@ -26,8 +26,8 @@ CELLS = {
     "ortho": [[4.0, 0, 0], [0, 5.0, 0], [0, 0, 6.5]],
     "tric": [[5.0, 0, 0], [1.0, 4.0, 0], [0.5, -0.75, 6.0]],
 }
-MASSES = [1.0, 16.0, 12.0]  # dyadic, so that float sums of masses are exact
-SYMS = "HOC"
+MASSES = [1.0, 16.0, 12.0, 14.0]  # dyadic, so that float sums of masses are exact
+SYMS = "HOCN"
 
 
 # ------------------------------------------------------------------ generators
@@ -513,6 +513,8 @@ def _plan(tier):
     for op in ("Isotropic", "Anisotropic", "Shape"):
         for masked in (False, True):
             plan.append(("deformation", dict(op=op, masked=masked), ("done",)))
+    plan.append(("disp", dict(op="Ball"), (), "geometry"))
+    plan.append(("deformation", dict(op="Shape", masked=False), (), "volume-preserving"))
     return plan
 
 
